@@ -59,6 +59,9 @@ func runC06(c *Ctx) {
 	c.Floor("fetch-decode-bounds", n, 40)
 	c06ensureLen(c, m)
 	c06offset(c, m)
+	c06batchSkip(c, m)
+	c06xerial(c, m)
+	cursorAdvanceRule(c, m)
 	fetchKeepRules(c, m)
 	abortRules(c, m)
 	c06recordMap(c, m)
@@ -72,6 +75,7 @@ func runC05(c *Ctx) {
 	c05plumbing(c, m)
 	fetchKeepRules(c, m)
 	abortRules(c, m)
+	cursorAdvanceRule(c, m)
 	c05kfakeAbortedIndex(c)
 }
 
@@ -829,4 +833,197 @@ func c05plumbing(c *Ctx, m *Module) {
 			c.Check(okw, rule, st.Fn.Key+": "+nodeStr(st.Node), st.Node.Pos(), m, "", "cfg.isolationLevel is written outside the FetchIsolationLevel option / defaults")
 		}
 	}
+}
+
+// c06batchSkip: a whole batch is skipped without decoding only when its last
+// offset (FirstOffset + LastOffsetDelta, which compaction preserves) is below
+// the requested offset.  NumRecords shrinks under compaction and must not
+// decide the skip.
+func c06batchSkip(c *Ctx, m *Module) {
+	rule := "batch-skip-by-last-offset"
+	f := c.NeedFunc(m, "kgo.ProcessFetchPartitionOpts.processRecordBatch")
+	if f == nil {
+		return
+	}
+	g := f.Graph()
+	info := f.Info()
+	// returns before the records are read
+	var readCall *ast.CallExpr
+	for _, call := range callsNamed(f.Decl.Body, info, "readRawRecordsInto", false) {
+		readCall = call
+	}
+	if readCall == nil {
+		c.Undecided(rule, f.Key+"#decode", f.Pos(), m, "readRawRecordsInto call not found")
+		return
+	}
+	rl, _ := g.LocOf(readCall)
+	lo := localObj(f, "lastOffset")
+	var ld ast.Expr
+	if lo != nil {
+		ld = singleDef(f, lo)
+	}
+	c.Check(ld != nil && nosp(exprStr(ld)) == "batch.FirstOffset+int64(batch.LastOffsetDelta)", rule, f.Key+": lastOffset", f.Pos(), m, "FirstOffset + LastOffsetDelta", "lastOffset is not batch.FirstOffset + int64(batch.LastOffsetDelta)")
+	n, k := 0, 0
+	ast.Inspect(f.Decl.Body, func(x ast.Node) bool {
+		if _, isLit := x.(*ast.FuncLit); isLit {
+			return false
+		}
+		r, ok := x.(*ast.ReturnStmt)
+		if !ok {
+			return true
+		}
+		l, okl := g.LocOf(r)
+		if !okl || g.reachFwd(rl, l) {
+			return true // after the decode
+		}
+		// an early return: either an error was recorded (fp.Err store in the same block) or it is the skip
+		blk := innerBlock(f.Decl.Body, r)
+		hasErr := blk != nil && containsNode(blk, false, func(y ast.Node) bool {
+			as, ok := y.(*ast.AssignStmt)
+			return ok && len(as.Lhs) == 1 && nosp(exprStr(as.Lhs[0])) == "fp.Err"
+		})
+		if hasErr {
+			return true
+		}
+		n++
+		facts := g.FactsAt(l)
+		var guards []string
+		okSkip := false
+		for _, ft := range facts {
+			s := nosp(exprStr(ft.Cond))
+			if ft.Val && s == "lastOffset<o.Offset" {
+				okSkip = true
+				continue
+			}
+			if ft.Val {
+				guards = append(guards, s)
+			}
+		}
+		c.Check(okSkip && len(guards) == 0, rule, f.Key+": silent skip of a batch#"+ordinal(&k), r.Pos(), m, "only when lastOffset < o.Offset", "a batch is skipped without decoding under `"+strings.Join(guards, ", ")+"` instead of lastOffset < o.Offset: a compacted batch (fewer records than its offset range) that still holds wanted records is dropped, and the next offset does not move past it")
+		return true
+	})
+	c.Floor(rule+"/silent-skips", n, 1)
+}
+
+// cursorAdvanceRule: the offset ProcessFetchPartition returns is stored into
+// the cursor entry unconditionally - also when every record of the response
+// was filtered out (aborted data, control records, compacted-away batches) -
+// otherwise the same bytes are fetched forever and nothing behind them is
+// ever delivered.
+func cursorAdvanceRule(c *Ctx, m *Module) {
+	rule := "cursor-advances-past-filtered-data"
+	f := c.NeedFunc(m, "kgo.cursorOffsetNext.processRespPartition")
+	if f == nil {
+		return
+	}
+	info := f.Info()
+	g := f.Graph()
+	off := m.Field("kgo", "cursorOffset", "offset")
+	n := 0
+	ast.Inspect(f.Decl.Body, func(x ast.Node) bool {
+		as, ok := x.(*ast.AssignStmt)
+		if !ok || len(as.Rhs) != 1 || len(as.Lhs) != 2 {
+			return true
+		}
+		call, ok := as.Rhs[0].(*ast.CallExpr)
+		if !ok || calleeName(info, call) != "kgo.ProcessFetchPartition" {
+			return true
+		}
+		n++
+		cons := f.Key + ": next offset of ProcessFetchPartition"
+		if sameField(fieldOfSel(info, as.Lhs[1]), off) {
+			c.OK(rule, cons, as.Pos(), m, "stored into the cursor entry directly")
+			return true
+		}
+		id, isID := as.Lhs[1].(*ast.Ident)
+		if !isID {
+			c.Fail(rule, cons, as.Pos(), m, "the next offset returned by ProcessFetchPartition is discarded")
+			return true
+		}
+		obj := info.Defs[id]
+		if obj == nil {
+			obj = info.Uses[id]
+		}
+		// every path from the call to an exit stores it into o.offset
+		al, _ := g.LocOf(as)
+		isStore := func(nd ast.Node) bool {
+			s2, ok := nd.(*ast.AssignStmt)
+			if !ok {
+				return false
+			}
+			for i, l := range s2.Lhs {
+				if sameField(fieldOfSel(info, l), off) && i < len(s2.Rhs) {
+					if rid, ok := unparen(s2.Rhs[i]).(*ast.Ident); ok && info.Uses[rid] == obj {
+						return true
+					}
+				}
+			}
+			return false
+		}
+		path, found := g.FindPath(al, SearchOpts{Stop: isStore, GoalExit: func(k ExitKind, last ast.Node) bool { return k != ExitPanic }})
+		c.Check(!found, rule, cons, as.Pos(), m, "stored into the cursor entry on every path", "the next offset is stored into the cursor only on some paths ("+pathStr(path)+"): a response whose records were all filtered out (aborted transaction, control batch) never moves the cursor, the same data is fetched forever and nothing behind it is delivered")
+		return true
+	})
+	c.Floor(rule+"/calls", n, 1)
+}
+
+// c06xerial: the multi-chunk snappy ("xerial") decoder decodes every chunk
+// into one reused scratch buffer, so the output it accumulates must be built
+// by copying each chunk (append(out, chunk...)); aliasing the output to the
+// scratch buffer lets a later chunk overwrite an earlier one.
+func c06xerial(c *Ctx, m *Module) {
+	rule := "xerial-output-copied"
+	f := c.NeedFunc(m, "kgo.xerialDecode")
+	if f == nil {
+		return
+	}
+	info := f.Info()
+	// the accumulator: the identifier returned with a nil error
+	var acc types.Object
+	ast.Inspect(f.Decl.Body, func(x ast.Node) bool {
+		r, ok := x.(*ast.ReturnStmt)
+		if ok && len(r.Results) == 2 && exprStr(r.Results[1]) == "nil" {
+			if id, ok := r.Results[0].(*ast.Ident); ok {
+				acc = info.Uses[id]
+			}
+		}
+		return true
+	})
+	if acc == nil {
+		c.Undecided(rule, f.Key+"#result", f.Pos(), m, "success return of an identifier not found")
+		return
+	}
+	// the scratch: the identifier that receives s2.Decode's result
+	var scratch types.Object
+	ast.Inspect(f.Decl.Body, func(x ast.Node) bool {
+		as, ok := x.(*ast.AssignStmt)
+		if !ok || len(as.Rhs) != 1 {
+			return true
+		}
+		if call, ok := as.Rhs[0].(*ast.CallExpr); ok {
+			if fn, ok := calleeObj(info, call).(*types.Func); ok && fn.Name() == "Decode" && fn.Pkg() != nil && strings.HasSuffix(fn.Pkg().Path(), "/s2") {
+				if id, ok := as.Lhs[0].(*ast.Ident); ok {
+					scratch = info.Uses[id]
+					if scratch == nil {
+						scratch = info.Defs[id]
+					}
+				}
+			}
+		}
+		return true
+	})
+	c.Check(scratch != nil && scratch != acc, rule, f.Key+": chunks decode into a scratch buffer distinct from the output", f.Pos(), m, "", "the chunk decode target is the output itself or was not found")
+	n := 0
+	for _, rhs := range assignsTo(f, acc) {
+		ok := false
+		if call, isCall := rhs.(*ast.CallExpr); isCall && exprStr(call.Fun) == "append" && len(call.Args) == 2 && call.Ellipsis != token.NoPos {
+			if a0, isID := call.Args[0].(*ast.Ident); isID && info.Uses[a0] == acc {
+				if a1, isID := call.Args[1].(*ast.Ident); isID && info.Uses[a1] == scratch {
+					ok = true
+				}
+			}
+		}
+		c.Check(ok, rule, f.Key+": output = "+exprStr(rhs)+"#"+ordinal(&n), f.Pos(), m, "each chunk is copied onto the output", "the output is assigned `"+exprStr(rhs)+"` instead of append(output, chunk...): it aliases the reused scratch buffer, and a later chunk overwrites the bytes of an earlier one (multi-block xerial frames from Java producers decode to corrupt records)")
+	}
+	c.Floor(rule+"/output-stores", n, 1)
 }
